@@ -30,7 +30,7 @@ Ctxs(d) == UNION {[1..n -> CtxTokens(d)] : n \in 0..CtxLen}
 
 Written(v, q) == IF q THEN QuoteS(v) ELSE v
 
-Scn(di, po, argv) == [decl |-> di, popts |-> po, handler |-> "none", cmdHandler |-> TRUE, execErr |-> FALSE, env |-> <<>>, argv |-> argv]
+Scn(di, po, argv) == [decl |-> di, popts |-> po, handler |-> "none", cmdHandler |-> TRUE, execErr |-> FALSE, env |-> <<>>, argv |-> argv, completion |-> E, hasPrelude |-> FALSE, prelude |-> <<>>]
 
 \* Two levels so that TLC's workers share the enumeration: Init picks declaration, parser options, option and the
 \* two spellings; Next picks value, quoting and context.
